@@ -142,6 +142,8 @@ func wlHsShared(c *Ctx, out *raceWorkerOut) {
 		}
 		return nil
 	}
+	// planned vs run (./check fails the run when an engine ran less than 90 % of what it planned)
+	out.Dist["planned:hs-shared-rounds"] += c.Pick(3, 12)
 	ln, err := net.Listen("tcp", "127.0.0.1:0")
 	if err != nil {
 		out.Notes = append(out.Notes, "hs-shared: cannot listen on loopback: "+err.Error())
@@ -269,6 +271,7 @@ func wlHsShared(c *Ctx, out *raceWorkerOut) {
 			}
 		}
 		out.eval(fmt.Sprintf("hs-shared:config-unchanged:%d", rd), true)
+		out.Dist["ran:hs-shared-rounds"]++
 	}
 }
 
@@ -370,6 +373,7 @@ func wlHsDet(c *Ctx, out *raceWorkerOut) {
 	// request; the session is invalidated (another goroutine, an administrator); the server's
 	// reply arrives. The invalidation must not be undone.
 	for rep := 0; rep < c.Pick(3, 10); rep++ {
+		out.Dist["planned:resume-vs-invalidate-schedules"]++
 		security.ClearSessionCache()
 		ccache := security.NewSessionCache()
 		cc := raceCliConf(ccache, "")
@@ -416,6 +420,7 @@ func wlHsDet(c *Ctx, out *raceWorkerOut) {
 		_, back := ccache.Lookup(sid)
 		_, backCmd := ccache.LookupByCommand("", "srvA", fmt.Sprint(raceCmd))
 		out.count("resume-vs-invalidate")
+		out.Dist["ran:resume-vs-invalidate-schedules"]++
 		out.eval("resume-vs-invalidate", true)
 		if invalidated && resumed && herr == nil && (back || backCmd) {
 			out.violate(Violation{Property: "C17", Key: "C17:lost-invalidation-resume",
@@ -519,6 +524,7 @@ func wlSrvResumeInvalidate(c *Ctx, out *raceWorkerOut) {
 		_, back := security.GetSessionCache().Lookup(sid)
 		again := serve(sid, nil, nil)
 		out.count("srv-resume-vs-invalidate:" + label)
+		out.Dist["ran:srv-resume-vs-invalidate-schedules"]++
 		out.eval("srv-resume-vs-invalidate:"+label, true)
 		if invalidated && (back || again) {
 			out.violate(Violation{Property: "C17", Key: "C17:lost-invalidation-server-resume",
@@ -529,6 +535,7 @@ func wlSrvResumeInvalidate(c *Ctx, out *raceWorkerOut) {
 	}
 	// (a) the policy callback as the schedule point
 	for rep := 0; rep < c.Pick(2, 6); rep++ {
+		out.Dist["planned:srv-resume-vs-invalidate-schedules"]++
 		sid, _, ok := establish()
 		if !ok {
 			continue
@@ -554,7 +561,9 @@ func wlSrvResumeInvalidate(c *Ctx, out *raceWorkerOut) {
 	slog.SetDefault(slog.New(h))
 	// dry run: how many records does serving one request emit?
 	records := 0
+	out.Dist["planned:srv-resume-log-point-dry-run"]++
 	if sid, _, ok := establish(); ok {
+		out.Dist["ran:srv-resume-log-point-dry-run"]++
 		h.mu.Lock()
 		h.armed, h.n, h.at, h.fire = true, 0, -1, nil
 		h.mu.Unlock()
@@ -565,6 +574,7 @@ func wlSrvResumeInvalidate(c *Ctx, out *raceWorkerOut) {
 	}
 	out.Dist["srv-resume-log-points"] = records
 	for k := 0; k < records && k < 24; k++ {
+		out.Dist["planned:srv-resume-vs-invalidate-schedules"]++
 		sid, _, ok := establish()
 		if !ok {
 			continue
